@@ -271,6 +271,9 @@ def import_cases(rng, n_each, N):
         cases.append(('std-twice', 'repeat %d %s' % (N, cps('导入《%s》\n导入《%s》\n输出1' % (lib, lib)))))
         cases.append(('std-select', 'repeat %d %s' % (N, cps('导入《%s》之%s\n导入《%s》\n输出1' % (lib, fns[-1], lib)))))
     cases.append(('std-both', 'repeat %d %s' % (N, cps('导入《@JSON》\n导入《@文件》\n导入《@JSON》\n输出1'))))
+    # a generation that fails (non-finite number, caught) and a good one after it: what the second one yields must not depend on what the
+    # first one left behind, nor on when the collector ran
+    cases.append(('std-use-after-failure', 'repeat %d %s' % (N, cps('导入《@JSON》\n如何试？\n    输出（生成JSON：【“x” = 【“a” = 1，“坏” = 1*10^308 * 10】】）\n    拦截异常：\n        输出 “败”\n令甲设为（试）\n（显示：甲）\n（显示：（生成JSON：【“a” = 1，“b” = 【2，3】】））\n输出（试）'))))
     cases.append(('std-use', 'repeat %d %s' % (N, cps('导入《@JSON》\n令典设为【“b” = 1，“a” = 2，“d” = 【3，4】，“c” = “x”】\n（显示：（生成JSON：典））\n输出（生成JSON：典）'))))
 
     def files(fs, main):
